@@ -5,8 +5,8 @@ from .. import queryh as Q
 from .. import renderh as R
 
 
-def tok(i):
-    return "None" if i is None else f"v{i}"
+def tok(i, merged=False):
+    return "None" if i is None else (f"w{i % 2}" if merged else f"v{i}")
 
 
 def stable_sorted(xs):
@@ -16,14 +16,14 @@ def stable_sorted(xs):
 class PlainLeg(R.RenderLeg):
     name = "plain"
     rule = ("state import: random universes (isolated vertices, self-loops, parallel / undirected edges, neighbours outside the "
-            "universe, occasionally an unknown link class or a half-assigned edge) rendered with and without rfunc and sort key; "
+            "universe, occasionally an unknown link class or a half-assigned edge) rendered with repr, an injective rfunc and a NON-injective rfunc (two members render alike), with and without sort key; "
             "exact string comparison with the model; oracle = the statement (one line per member in universe / stably sorted order: "
             "rendering, ' -> ', renderings of neighbors() joined by ', '); non-trivial = some member has no neighbour or >= 2")
     quick_n = 200
     thorough_n = 5000
 
     def queries_for(self, rng, u):
-        return [["PLAIN", u, s, r] for s in (False, True) for r in (False, True)]
+        return [["PLAIN", u, s, r] for s in (False, True) for r in (False, True, 2)]
 
     def observe(self, case):
         obs = super().observe(case)
@@ -58,7 +58,7 @@ class PlainLeg(R.RenderLeg):
                     bad = nbs
                     break
                 ns = stable_sorted(nbs[1]) if srt else nbs[1]
-                lines.append(tok(v) + " -> " + ", ".join(tok(x) for x in ns))
+                lines.append(tok(v, q[3] == 2) + " -> " + ", ".join(tok(x, q[3] == 2) for x in ns))
             exp = bad if bad else ["text", "\n".join(lines)]
             if a != exp:
                 return [f"basic_render(sort={srt}, rfunc={q[3]}) = {a!r}; the statement gives {exp!r}"]
